@@ -561,7 +561,9 @@ func VerifC10ToolCalls() {
 	vcfg("selectfirst", 1)
 	var evs []c10Ev
 	callbacks.InitCallbackHandlers([]callbacks.Handler{&c10Rec{id: "global", evs: &evs}})
-	tn, err := NewToolNode(ctx, &ToolsNodeConfig{Tools: []tool.BaseTool{&c10Tool{"t0"}, &c10Tool{"t1"}}})
+	// "ghost" is not a configured tool: its calls are answered by the unknown-tool handler and are tool calls like any other
+	tn, err := NewToolNode(ctx, &ToolsNodeConfig{Tools: []tool.BaseTool{&c10Tool{"t0"}, &c10Tool{"t1"}},
+		UnknownToolsHandler: func(ctx context.Context, name, input string) (string, error) { return "unknown(" + input + ")", nil }})
 	vassert(err == nil, "tools node is created")
 	g := NewGraph[*schema.Message, []*schema.Message]()
 	_ = g.AddToolsNode("tools", tn, WithNodeName("TOOLS"))
@@ -573,7 +575,7 @@ func VerifC10ToolCalls() {
 	msg := &schema.Message{Role: schema.Assistant}
 	want := map[string]int{}
 	for i := 0; i < n; i++ {
-		name := []string{"t0", "t1"}[vchoose("tool", 2)]
+		name := []string{"t0", "t1", "ghost"}[vchoose("tool", 3)]
 		msg.ToolCalls = append(msg.ToolCalls, schema.ToolCall{ID: []string{"c0", "c1", "c2"}[i], Function: schema.FunctionCall{Name: name, Arguments: "x"}})
 		want[name]++
 	}
@@ -597,7 +599,7 @@ func VerifC10ToolCalls() {
 	vquiesce()
 	vassert(rerr == nil, "run succeeds")
 	for _, h := range []string{"global", "percall"} {
-		for _, name := range []string{"t0", "t1"} {
+		for _, name := range []string{"t0", "t1", "ghost"} {
 			vassert(c10Count(evs, h, "start", name) == want[name] && c10Count(evs, h, "end", name) == want[name], "handler "+h+": one start and one end per call of tool "+name)
 		}
 		vassert(c10Count(evs, h, "start", "TOOLS") == 1 && c10Count(evs, h, "end", "TOOLS") == 1, "handler "+h+": one start and one end for the tools node")
